@@ -11,6 +11,12 @@ CHECKS = {
         "note": "numpy dtype/promotion and mask models assumed (NEP 50 weak python scalars); reals for floats, so float32 precision is only covered by the bounded layer.",
         "technique": "VC generation from the AST over symbolic-length typed arrays; CAS term equality by cases + SMT feasibility of boundary cases; bounded run-time contracts for layout/precision",
     },
+    "C12": {
+        "category": "proof",
+        "text": "Continuity at p_b (GOR, FVF, density, viscosity) and the inverse pair are CAS identities on the branch terms extracted from oil.py; ordering clauses are sign lemmas over the whole box by interval branch-and-bound: dRs/dp>0, dBo/dp>0 below, exponent of the undersaturated FVF decreasing (cut z0 discovered automatically, its range proved), d mu_live/dR<0 on the proved ranges of mu_dead and Rs, c_o>0, mu>0; branch selection equivalent to p>=p_b for all inputs (SMT); array forms inherit everything through the element-wise obligations. 21 obligations.",
+        "note": "chain-rule composition of two sign lemmas for viscosity and 'monotone exponent => monotone FVF' are argued by hand; sympy rewriting re-checked numerically; reals for floats.",
+        "technique": "VC generation from the AST; CAS identities + outward-rounded interval branch-and-bound with automatically discovered cuts; SMT for branch conditions",
+    },
     "C13": {
         "category": "proof",
         "text": "Each clause of C13 is an identity between terms extracted from the AST of oil.py/water.py/gas.py on every run; the hand-coded derivative is compared with the exact symbolic derivative of the parent's own term and proved equal for every input of the box by CAS normal form (sympy, exact rationals); branch selection at the bubble point is an SMT obligation. All 8 obligations must be discharged.",
@@ -40,6 +46,12 @@ CHECKS = {
         "text": "relative_permeabilities is executed symbolically on a record array of symbolic length: the eight paths give 'raises ValueError iff a record does not sum to one or a parameter is out of range'; on the returning path well-definedness of every division / real power, 0 <= k <= k_max, k = 0 at or below residual and monotonicity are SMT obligations at symbolic record indices; the two-phase helper's columns follow from the linspace model. 6 obligations.",
         "note": "Real powers uninterpreted with three textbook axioms instantiated at the goal's power terms; np.any / pandas table models assumed; residuals summing to < 1 is part of admissibility.",
         "technique": "VC generation from the AST over symbolic-length record arrays; SMT (z3) with instantiated power axioms",
+    },
+    "C08": {
+        "category": "other",
+        "text": "Proved: the quadrature integrand extracted from pseudopressure_Hussainy's closure, the column handed to cumulative_trapezoid in build_pvt_gas and the stand-alone transform all integrate 2p/(mu Z) (CAS); the table column equals the stand-alone transform of its own columns increment by increment; trapezoid increments positive; quadrature limits are (pressure_standard, pressure); integrand positive on the box (INT). 7 obligations. 'Agree to quadrature accuracy' is an a-priori error bound no prover here derives: BOUNDED run-time contract (routes_agree, additive, zero_at_reference, increasing on real runs) - hence level 'other'.",
+        "note": "scipy quad idealised as the exact integral; cumulative_trapezoid model; Z in (0.05,5) and viscosity>0 from C06/C07.",
+        "technique": "VC generation from the AST (closure handed to quad extracted symbolically); CAS + INT + SMT; bounded run-time contract for numerical agreement",
     },
     "C09": {
         "category": "proof",
